@@ -88,6 +88,8 @@ let one_case () =
         (match getobj st l with Some (OT p) -> emit [hx (t_call numf p u t)] | _ -> emit ["E:TypeError"])
     | "TI" -> let l = nint () in let u = unit_of (nint ()) in let a = nfl () in let b = nfl () in
         (match getobj st l with Some (OT p) -> emit [hx (t_int numf p u a b)] | _ -> emit ["E:TypeError"])
+    | "RP" -> let l = nint () in let t = nfl () in
+        (match getobj st l with Some (OT p) -> emit [hx (rv_pdf_of numf p t)] | _ -> emit ["E:TypeError"])
     | "TT" -> let l = nint () in
         (match getobj st l with Some (OT p) -> emit [hx (t_total numf p)] | _ -> emit ["E:TypeError"])
     | "CD" -> let l = nint () in let u = unit_of (nint ()) in let t = nfl () in
